@@ -41,7 +41,11 @@ def fadd(x, y=0, z=0):
     return x + y + z
 
 
-FUNCS = {"fpow": fpow, "fadd": fadd, "hyp": math.hypot}
+def fpair(x, y=1):
+    return (x + y, x - y)
+
+
+FUNCS = {"fpow": fpow, "fadd": fadd, "hyp": math.hypot, "fpair": fpair}
 
 
 class Obj:
@@ -134,6 +138,7 @@ class Env:
         self.box["D"] = {"p": 2, "q": 9, 1: 4, "k'": 6, 2 ** 61: 8}      # hash(2**61) == hash(1)
         o = Obj()
         o.u, o.w = 4, 2.5
+        o.lst = [1, 2, 3]           # a container that hangs off an attribute
         self.box["o"] = o
         self.r = self.m.ref(self.box, "r")
         self.f = self.m.ref(dict(FUNCS), "f")
@@ -491,7 +496,9 @@ def run_case(case, fail, stats):
         # C13 over the full expression language: f(*values) on one manager vs assigning the values one by one on a twin
         env, env2 = Env(case["vals"]), Env(case["vals"])
         for e in (env, env2):
-            del e.box["o"]
+            if not case.get("keep_o"):
+                del e.box["o"]
+        refof = lambda e, a: e.r[a] if isinstance(a, str) else e.build(a)       # an argument: a name or a path term
         for i, t in enumerate(case["defs"]):
             nm = "out%d" % i
             rs = []
@@ -503,14 +510,14 @@ def run_case(case, fail, stats):
                 return
         stats["genfun_cases"] = stats.get("genfun_cases", 0) + 1
         names = [a[0] for a in case["args"]]
-        made = outcome(lambda: env.m.gen_fun("f", **{"x%d" % i: env.r[nm] for i, nm in enumerate(names)}))
+        made = outcome(lambda: env.m.gen_fun("f", **{"x%d" % i: refof(env, nm) for i, nm in enumerate(names)}))
         if made[0] != "ok":
             fail("C13", "gen_fun-raises", {"defs": case["defs"], "args": names, "exc": made[1]})
             return
         r1 = outcome(lambda: made[1](*[val_py(a[1]) for a in case["args"]]))
         r2 = ("ok", None)
         for nm, vj in case["args"]:
-            r2 = outcome(lambda: env2.r.__setitem__(nm, val_py(vj)))
+            r2 = outcome(lambda: env2.m.set_value(refof(env2, nm), val_py(vj)))
             if r2[0] != "ok":
                 break
         if r1[0] == "exc" and r1[1] == "ZeroDivisionError":
@@ -519,7 +526,7 @@ def run_case(case, fail, stats):
             return          # the manager itself raises on this history: nothing to compare with
         if r1[0] != "ok":
             fail("C13", "generated-function-raises", {"defs": case["defs"], "args": case["args"], "exc": r1[1],
-                                                      "source": env.m.mk_fun("f", **{"x%d" % i: env.r[nm] for i, nm in enumerate(names)})})
+                                                      "source": env.m.mk_fun("f", **{"x%d" % i: refof(env, nm) for i, nm in enumerate(names)})})
             return
         s1, s2 = snapshot(env.box), snapshot(env2.box)
         if s1 != s2 and "nan" not in json.dumps([s1, s2]):
@@ -528,7 +535,7 @@ def run_case(case, fail, stats):
                 extra["known"] = "D29"     # KNOWN_FINDINGS.json: the text of such a constant reads back with another zero sign
             fail("C13", "function-differs-from-assignments", {"defs": case["defs"], "args": case["args"],
                                                               "via_function": s1, "via_manager": s2,
-                                                              "source": env.m.mk_fun("f", **{"x%d" % i: env.r[nm] for i, nm in enumerate(names)})},
+                                                              "source": env.m.mk_fun("f", **{"x%d" % i: refof(env, nm) for i, nm in enumerate(names)})},
                  **extra)
     elif kind == "eqhash":
         m = xdeps.Manager()
@@ -546,7 +553,11 @@ def run_case(case, fail, stats):
         d = {p: 1}
         indict = q in d
         inset = q in {p}
-        if same_path:
+        case["_val"] = case["_val0"] = repr([eq, heq, indict, inset, str(q)])
+        if len(case["p"]) == len(case["q"]) and any(ka == kb == "i" and numpy_twin(key_py(a), key_py(b))
+                                                    for (ka, a), (kb, b) in zip(case["p"], case["q"])):
+            stats["eq_numpy_twin_pairs"] = stats.get("eq_numpy_twin_pairs", 0) + 1
+        elif same_path:
             if not (eq and heq and indict and inset):
                 fail("C06", "same-path-not-identified", {"p": case["p"], "q": case["q"], "eq": eq, "hash_eq": heq,
                                                           "in_dict": indict, "printed": [str(p), str(q)]})
@@ -699,7 +710,7 @@ def pexpr_of(obj):
     if isinstance(obj, R.ItemRef):
         o = pexpr_of(obj._owner)
         k = obj._key
-        if o is None or isinstance(k, bool) or not isinstance(k, (str, int)):
+        if o is None or type(k) not in (str, int):       # bools, numpy scalars, tuples, floats: outside the printer model
             return None
         return ["item", o, k]
     if isinstance(obj, R.AttrRef):
@@ -811,6 +822,8 @@ def snapshot(box):
             out[str(k)] = None if v is None else (repr(v) if v == v else "nan")
         elif isinstance(v, (list, dict)):
             out[str(k)] = repr(v)
+        elif isinstance(v, Obj):
+            out[str(k)] = repr(sorted(vars(v).items()))
     return out
 
 
@@ -830,7 +843,20 @@ def key_py(k):
             return float.fromhex(k["f"])
         if "t" in k:
             return tuple(key_py(x) for x in k["t"])
+        if "np" in k:
+            return getattr(np, k["np"][0])(k["np"][1])      # a numpy scalar used as a key
     return k
+
+
+def numpy_twin(a, b):
+    """keys that are == but differ in being a numpy scalar / a builtin (c[np.int64(2)] vs c[2]): whether these denote
+    one path is not something C06 decides; the pair is recorded (C20 compares builds on it) but gets no verdict"""
+    if isinstance(a, np.generic) == isinstance(b, np.generic) or isinstance(a, tuple) or isinstance(b, tuple):
+        return False
+    try:
+        return bool(a == b)
+    except Exception:
+        return False
 
 
 def paths_equal(p, q):
@@ -1022,6 +1048,25 @@ def cases_c05(rng, n):
               ["bin", "add", ["root"], ["lit", {"int": 1}]], ["builtin", "abs", ["root"], []]]:
         yield {"kind": "deps", "vals": {"v0": {"float": (12.345).hex()}, "v1": {"int": 1}, "v2": {"int": 5}, "v3": {"int": 2}},
                "term": t, "perturb": ["v1", {"int": 2}]}
+    # an item / attribute taken of a COMPUTED value (the owner of the ItemRef / AttrRef is an expression, not a location)
+    for t, pert in [(["item", ["builtin", "divmod", ["ref", "v3"], [["ref", "v2"]]], ["lit", {"int": 0}]], "v3"),
+                    (["item", ["builtin", "divmod", ["ref", "v3"], [["ref", "v2"]]], ["lit", {"int": 1}]], "v2"),
+                    (["attr", ["bin", "mul", ["ref", "v1"], ["ref", "v2"]], "real"], "v1"),
+                    (["bin", "add", ["attr", ["bin", "add", ["ref", "v1"], ["lit", {"int": 1}]], "real"], ["lit", {"int": 1}]], "v1"),
+                    (["item", ["call", "fpair", [["ref", "v1"]], [["y", ["ref", "v2"]]]], ["lit", {"int": 1}]], "v2"),
+                    (["item", ["call", "fpair", [["ref", "v1"]], []], ["bin", "mod", ["ref", "v3"], ["lit", {"int": 2}]]], "v1")]:
+        yield {"kind": "deps", "vals": {"v0": {"int": 0}, "v1": {"int": 7}, "v2": {"int": 2}, "v3": {"int": 9}},
+               "term": t, "perturb": [pert, {"int": 4}]}
+    # several computed keys below one owner (the owner is collected by the first, the keys of the others still count),
+    # and a computed key that itself goes through the same owner; the perturbed location occurs only inside a key
+    km = lambda nm: ["bin", "mod", ["ref", nm], ["lit", {"int": 4}]]
+    for t, pert in [(["bin", "add", ["item", ["ref", "L"], km("v1")], ["item", ["ref", "L"], km("v2")]], "v2"),
+                    (["bin", "add", ["item", ["ref", "L"], km("v2")], ["item", ["ref", "L"], km("v1")]], "v1"),
+                    (["item", ["ref", "L"], ["bin", "mod", ["item", ["ref", "L"], km("v1")], ["lit", {"int": 4}]]], "v1"),
+                    (["bin", "mul", ["item", ["ref", "L"], ["lit", {"int": 0}]], ["item", ["ref", "L"], km("v3")]], "v3"),
+                    (["call", "fadd", [["item", ["ref", "L"], km("v1")]], [["y", ["item", ["ref", "L"], km("v2")]]]], "v2")]:
+        yield {"kind": "deps", "vals": {"v0": {"int": 0}, "v1": {"int": 1}, "v2": {"int": 2}, "v3": {"int": 3}},
+               "term": t, "perturb": [pert, {"int": 0}]}
 
 
 def cases_c13(rng, n):
@@ -1037,6 +1082,15 @@ def cases_c13(rng, n):
     vals0 = {"v0": {"float": (12.345).hex()}, "v1": {"int": 3}, "v2": {"int": 5}, "v3": {"int": 2}}
     for t in fixed:
         yield {"kind": "genfun", "vals": vals0, "defs": [t], "args": [["v1", {"int": 5}], ["v0", {"float": (2.5).hex()}]]}
+    # arguments that are elements of a container hanging off an attribute (r['o'].lst[k]); definitions that read that
+    # container through a computed key or as a whole are downstream of the argument
+    lst = ["attr", ["ref", "o"], "lst"]
+    for d, argk in [(["item", lst, ["bin", "mod", ["ref", "v1"], ["lit", {"int": 3}]]], 0),
+                    (["bin", "add", ["item", lst, ["bin", "mod", ["ref", "v1"], ["lit", {"int": 3}]]], ["ref", "v2"]], 0),
+                    (["call", "fadd", [["item", lst, ["bin", "mod", ["ref", "v3"], ["lit", {"int": 3}]]]], [["y", ["ref", "v1"]]]], 2),
+                    (["bin", "mul", ["item", lst, ["lit", {"int": 1}]], ["lit", {"int": 2}]], 1)]:
+        yield {"kind": "genfun", "keep_o": True, "vals": vals0, "defs": [d, ["bin", "add", ["ref", "v0"], ["lit", {"int": 1}]]],
+               "args": [[["item", lst, ["lit", {"int": argk}]], {"int": 40}], ["v0", {"float": (2.5).hex()}]]}
     # known finding D29: the text of the constant complex(0.0, -2.0) is "-2j", which reads back as complex(-0.0, -2.0)
     yield {"kind": "genfun", "vals": vals0, "defs": [["bin", "truediv", ["lit", {"complex": [(0.0).hex(), (-2.0).hex()]}], ["ref", "v3"]]],
            "args": [["v3", {"int": 1}]]}
@@ -1108,7 +1162,10 @@ def cases_c06(rng, n):
     paths += [[["i", "a"], ["i", "b"]], [["i", "a']['b"]], [["i", "a"], ["a", "b"]], [["a", "a"], ["i", "b"]], [["i", "a.b"]],
               [["i", 1]], [["i", "1"]], [["i", {"f": (1.0).hex()}]], [["i", -1]], [["i", "-1"]], [["i", {"t": [1, 2]}]], [["i", "(1, 2)"]],
               [["i", "a"], ["i", 0]], [["i", "a"], ["i", "0"]], [["i", {"t": [1]}]], [["i", "k"], ["i", {"t": ["a"]}]], [["i", "k"], ["i", "a"]],
-              [["i", {"t": [1, 2]}]], [["i", 1], ["i", 2]], [["a", "a"], ["a", "b"]], [["i", "c['a']"]], [["i", "c"], ["i", "a"]]]
+              [["i", {"t": [1, 2]}]], [["i", 1], ["i", 2]], [["a", "a"], ["a", "b"]], [["i", "c['a']"]], [["i", "c"], ["i", "a"]],
+              # numpy scalars as keys (an index from np.argmax, an np.str_ name)
+              [["i", {"np": ["int64", 1]}]], [["i", "a"], ["i", {"np": ["int64", 0]}]], [["i", {"np": ["str_", "a"]}], ["i", "b"]],
+              [["i", {"np": ["float64", 1.0]}]]]
     k = 0
     for p in paths:
         for q in paths:
